@@ -217,6 +217,37 @@ def gen_siamese_desc(rng, couts=(2, 3, 4), dim=2):
     return {'C0': C0, 'T': T, 'dim': dim, 'prog': prog, 'wseed': rng.randrange(1 << 30), 'siamese': 1}
 
 
+def gen_split_reuse_desc(rng, couts=(2, 3, 4), dim=2):
+    """One conv module `sh` invoked twice whose two results feed DIFFERENT sums: one call site is
+    summed with `side(x)`, the other is not (d reads the sum, e reads the other result, d + e is the
+    output). The module owns one output / weight quantizer, so both call sites -- and `side` -- must
+    share one component."""
+    C0 = rng.choice([2, 3]) if couts != (2, 4, 8) else rng.choice([2, 4])
+    T = rng.choice([6, 8])
+    prog = [['input']]
+
+    def add(ins):
+        prog.append(ins)
+        return len(prog) - 1
+
+    def cv(src, c):
+        return add(['conv', src, c, rng.choice([1, 3]), 1, int(rng.random() < 0.7)])
+    c1, c2, c3 = rng.choice(list(couts)), rng.choice(list(couts)), rng.choice(list(couts))
+    y1 = add(['relu', cv(0, c1)])
+    sh = cv(y1, c2)
+    y2 = add([rng.choice(['relu', 'relu6']), cv(0, c1)])
+    rb = add(['reuse', y2, sh])
+    side = cv(0, c2)
+    summed, other = (sh, rb) if rng.random() < 0.5 else (rb, sh)
+    y = add(['add', summed, side] if rng.random() < 0.5 else ['add', side, summed])
+    d = cv(add(['relu', y]), c3)
+    e = cv(add(['relu', other]), c3)
+    cur = add(['add', d, e] if rng.random() < 0.5 else ['add', e, d])
+    f = add(['flat', cur])
+    add(['lin', f, rng.choice([2, 4]) if couts == (2, 4, 8) else rng.choice([2, 3]), int(rng.random() < 0.8)])
+    return {'C0': C0, 'T': T, 'dim': dim, 'prog': prog, 'wseed': rng.randrange(1 << 30), 'split': 1}
+
+
 def _shapes(desc):
     """channels and spatial size of every instruction's output"""
     ch, sp = [], []
@@ -357,7 +388,9 @@ def model_nodes(desc):
             o1 = sp[i] if dim == 2 else 1
             k1 = k if dim == 2 else 1
             # dup=1, ta = tensor fed to the first call site (tie edge of the sharing graph, 3725f20)
-            toks.append('conv:%d:%d:%d:%d:%d:%d:%d:%d:%d:1:%d' % (mi[ins[1]], lt, ch[ins[1]], cout, k, k1, o0, o1, b, mi[src0]))
+            # and tf = node of the first call site (the call sites of a module share one component)
+            toks.append('conv:%d:%d:%d:%d:%d:%d:%d:%d:%d:1:%d:%d' % (mi[ins[1]], lt, ch[ins[1]], cout, k, k1, o0, o1, b, mi[src0],
+                                                                       mi[ins[2]]))
             slots.append(('L', mi[i], i))
         elif op == 'lin':
             b = 1 if (ins[3] or i in has_bn) else 0
